@@ -280,6 +280,9 @@ def main():
     samples = []
     for n in order:
         for smp in subs[n]["samples"][:3]:
+            txt = json.dumps(smp, ensure_ascii=False)
+            if len(txt) > 3000:  # large generated programs: keep the head, say so
+                smp = {"truncated_json": txt[:3000], "full_length": len(txt)}
             samples.append({"prop": n, "case": smp})
     exh = {n: subs[n]["exhaustive_domain"] for n in order if subs[n]["exhaustive_domain"]}
     coverage = {
